@@ -8,6 +8,7 @@ pub mod c10;
 pub mod c11;
 pub mod c15;
 pub mod c19;
+pub mod c19b;
 pub mod c20;
 pub mod common;
 
